@@ -35,7 +35,9 @@ def main():
     props = a[a.index("--props") + 1].split(",") if "--props" in a else [pid]
     race = "--race" in a
     scratch = "--scratch" in a  # run the checks against the scratch worktree (VERIF_REPO) instead of patching /repo
-    seeddir = "/tmp/seed/%s/_seed" % pid
+    root = a[a.index("--root") + 1] if "--root" in a else "/tmp/seed"
+    suffix = a[a.index("--suffix") + 1] if "--suffix" in a else ""
+    seeddir = "%s/%s/_seed" % (root, pid)
     patch = os.path.join(seeddir, letter + ".diff")
     demo = os.path.join(seeddir, letter + "_demo_test.go")
     meta = {"property": pid, "seed": letter, "tier": tier, "checks_run": props}
@@ -50,7 +52,7 @@ def main():
             print("PATCH DOES NOT APPLY (even 3-way):", out[-600:])
             return 2
         sh("git reset -q", cwd=WT)
-        rebased = "/tmp/seed/%s/_seed/%s.rebased.diff" % (pid, letter)
+        rebased = "%s/%s.rebased.diff" % (seeddir, letter)
         open(rebased, "w").write(sh("git diff", cwd=WT)[1])
         sh("git checkout -q -- .", cwd=WT)
         patch = rebased
@@ -109,7 +111,7 @@ def main():
         shutil.rmtree("/tmp/seedreplays", ignore_errors=True)
     meta["results"] = results
     print(json.dumps(meta, indent=1))
-    out = os.path.join(VERIF, "seeded", "%s-%s" % (pid, letter))
+    out = os.path.join(VERIF, "seeded", "%s-%s%s" % (pid, letter, suffix))
     if meta["pinned_tests_pass_with_change"] and meta["demo_fails_with_change"] and meta["demo_passes_without_change"]:
         os.makedirs(out, exist_ok=True)
         shutil.copy(patch, os.path.join(out, "patch.diff"))
